@@ -146,7 +146,11 @@ def opModule (j : Json) : Except String Json := do
     | none, none => "ok"
   let topEnums := match names j "top_enums" with | .ok v => v | .error _ => []
   let topMsgs := match names j "top_messages" with | .ok v => v | .error _ => []
+  -- `proto.module(package=…, marshal=…)`: absent "api_package" = a file of the API's own package
+  let apiPkg := match names j "api_package" with | .ok v => v | .error _ => pkg
+  let hd := moduleHeader apiPkg pkg
   pure (Json.mkObj [("import", Json.str imp), ("messages", jarr out), ("proto_alias", jstr p),
+                    ("header", Json.mkObj [("package", dotted hd.package), ("marshal", dotted hd.marshalName)]),
                     ("manifest", jarr ((manifest topEnums topMsgs).map jstr)),
                     ("imports", jarr (imports.map fun (n, p) => jarr [jstr n, dotted p]))])
 
